@@ -320,8 +320,9 @@ def check_and_load_args(args, parser):
 
     if args.genedb_output is None:
         args.genedb_output = args.output
-    elif not os.path.exists(args.genedb_output):
-        os.makedirs(args.genedb_output)
+    else:
+        # several runs started together may share this folder
+        os.makedirs(args.genedb_output, exist_ok=True)
     if not args.genedb:
         args.genedb_filename = None
     elif args.genedb.lower().endswith("db"):
